@@ -16,29 +16,91 @@ func checkC12(c *Check) {
 	c.Explanation = "Loop-shape rules on the pipe ingester: (1) records are produced by the accumulating bufio.Reader.ReadString/ReadBytes (ReadSlice/ReadLine/Scanner are bounded by the buffer and flagged); (2) the reader is created once, before the loop, and is the reader the loop reads from (buffered bytes are never discarded); (3) on the non-nil edge of the read error the function returns a non-nil error without calling the callback again (the unterminated tail and end-of-stream are never delivered or ignored), and a non-nil callback result is returned as that very value; (4) exactly one callback call per iteration, only on the nil-error edge of the read, whose string argument is the very read result (at most stripped of the delimiter). The 'any chunking' clause rests on ReadString's contract (trusted)."
 	c.Rule("framing-primitive / reader-outlives-loop / read-error-ends-delivery / callback-error-returned-unchanged / once-verbatim-in-order")
 	c.Trust("bufio.Reader.ReadString accumulates across short reads and internal-buffer boundaries and returns data+delimiter with a nil error, or the data read so far with a non-nil error")
-	ing := p.Method("ingesters/namedpipe", "NamedPipeIngester", "Ingest")
-	if !c.Anchor("(*namedpipe.NamedPipeIngester).Ingest", ing != nil) {
+	entry := p.Method("ingesters/namedpipe", "NamedPipeIngester", "Ingest")
+	if !c.Anchor("(*namedpipe.NamedPipeIngester).Ingest", entry != nil) {
 		return
 	}
-	c.Fn(funcDisplayName(ing))
-	r := NewResolver(p)
-	// callback parameter: a parameter of function type taking (context, string)
+	c.Fn(funcDisplayName(entry))
+	isCbParam := func(prm *ssa.Parameter) bool {
+		sig, ok := prm.Type().Underlying().(*types.Signature)
+		return ok && sig.Params().Len() == 2 && isStringish(sig.Params().At(1).Type())
+	}
+	// the function holding the read loop: Ingest itself, or a helper of the
+	// package that Ingest hands its callback parameter to (static call
+	// chain, the callback passed on unchanged)
+	ing := entry
 	var cbParam *ssa.Parameter
-	for _, prm := range ing.Params {
-		if sig, ok := prm.Type().Underlying().(*types.Signature); ok && sig.Params().Len() == 2 && isStringish(sig.Params().At(1).Type()) {
+	for _, prm := range entry.Params {
+		if isCbParam(prm) {
 			cbParam = prm
 		}
 	}
 	if !c.Anchor("callback parameter of Ingest", cbParam != nil) {
 		return
 	}
+	callsParam := func(fn *ssa.Function, prm *ssa.Parameter) bool {
+		found := false
+		allInstrs(fn, func(in ssa.Instruction) {
+			if cl, ok := in.(*ssa.Call); ok && cl.Call.Value == ssa.Value(prm) {
+				found = true
+			}
+		})
+		return found
+	}
+	var handOff []ssa.CallInstruction // calls on the chain Ingest -> loop function
+	for depth := 0; depth < 3 && !callsParam(ing, cbParam); depth++ {
+		var nextFn *ssa.Function
+		var nextPrm *ssa.Parameter
+		var site ssa.CallInstruction
+		n := 0
+		for _, ci := range callsIn(ing) {
+			sc := staticCallee(ci.Common())
+			if sc == nil || !InRepo(sc) || sc.Blocks == nil {
+				continue
+			}
+			for i, a := range ci.Common().Args {
+				if a == ssa.Value(cbParam) && i < len(sc.Params) {
+					n++
+					nextFn, nextPrm, site = sc, sc.Params[i], ci
+				}
+			}
+		}
+		if n != 1 {
+			break
+		}
+		if _, isDefer := site.(*ssa.Defer); isDefer {
+			break
+		}
+		if _, isGo := site.(*ssa.Go); isGo {
+			c.Bad("once-verbatim-in-order", "read loop started with go", p.InstrPos(site), "the read loop runs in another goroutine than Ingest: its result is not Ingest's result")
+			return
+		}
+		handOff = append(handOff, site)
+		ing, cbParam = nextFn, nextPrm
+		c.Fn(funcDisplayName(ing))
+	}
+	// Ingest returns the loop function's result unchanged
+	for _, site := range handOff {
+		v, isVal := site.(ssa.Value)
+		okRet := false
+		if isVal {
+			fl := &errFlow{p: p, seen: map[ssa.Value]bool{}}
+			fl.follow(v, 0)
+			okRet = len(fl.Returned) > 0
+			if inLoop(site) {
+				okRet = false
+			}
+		}
+		c.Cond(okRet, "read-error-ends-delivery", "result of the read-loop helper "+calleeName(site.Common())+" in "+site.Parent().Name(), p.InstrPos(site), "returned to the caller, called once", "the result of the function holding the read loop is dropped (or it is called in a loop): a read or callback error does not end the ingester")
+	}
+	r := NewResolver(p)
 	var cbCalls []*ssa.Call
 	allInstrs(ing, func(in ssa.Instruction) {
 		if cl, ok := in.(*ssa.Call); ok && cl.Call.Value == ssa.Value(cbParam) {
 			cbCalls = append(cbCalls, cl)
 		}
 	})
-	// also calls from closures of Ingest
+	// also calls from closures of the loop function
 	for _, af := range ing.AnonFuncs {
 		allInstrs(af, func(in ssa.Instruction) {
 			if cl, ok := in.(ssa.CallInstruction); ok {
@@ -166,7 +228,16 @@ func checkC12(c *Check) {
 	onNil := false
 	for _, g := range GuardsOf(cb) {
 		a := atomsOf(g)
-		if b, ok := a.V.(*ssa.BinOp); ok && (b.X == errEx || b.Y == errEx) {
+		isErr := func(x ssa.Value) bool {
+			if x == errEx {
+				return true
+			}
+			if _, isLoad := x.(*ssa.UnOp); isLoad {
+				return fsUnique(x, g.If, nil) == errEx
+			}
+			return false
+		}
+		if b, ok := a.V.(*ssa.BinOp); ok && (isErr(b.X) || isErr(b.Y)) {
 			if (b.Op == token.NEQ && !a.Pos) || (b.Op == token.EQL && a.Pos) {
 				onNil = true
 			}
@@ -205,8 +276,26 @@ func checkC12(c *Check) {
 		if searchAvoiding(ing, read, func(in ssa.Instruction) bool { return in == ssa.Instruction(ret) }, isCb) == nil {
 			continue
 		}
-		if nilKind(r, ret.Results[len(ret.Results)-1], ret) != NonNil {
-			nilExit = ret
+		res := ret.Results[len(ret.Results)-1]
+		if nilKind(r, res, ret) != NonNil {
+			// the result may sit in a local variable in memory: every path
+			// from the read to this return that avoids the callback takes the
+			// non-nil edge of the read error, and on those paths the return
+			// yields that very (non-nil) error
+			viaNN := false
+			if len(nn.Instrs) > 0 {
+				inNN := func(in ssa.Instruction) bool { return in == nn.Instrs[0] || isCb(in) }
+				if searchAvoiding(ing, read, func(in ssa.Instruction) bool { return in == ssa.Instruction(ret) }, inNN) == nil {
+					_, _, eif := errEdge(errEx)
+					if eif != nil {
+						vs := fsValuesVia(res, ret, nn, eif.Block(), read.Block())
+						viaNN = len(vs) == 1 && vs[0] == errEx
+					}
+				}
+			}
+			if !viaNN {
+				nilExit = ret
+			}
 		}
 	}
 	c.Cond(nilExit == nil, "read-error-ends-delivery", "returns reached from the read without delivering its record", p.InstrPos(read), "all of them return a non-nil error", "Ingest can return nil after a read that did not deliver a record (end-of-stream or another read error treated as a clean end): the worker ends without error, the error group is not cancelled and the daemon keeps running with this pipe dead")
@@ -221,15 +310,40 @@ func checkC12(c *Check) {
 		c.Cond(okRet, "callback-error-returned-unchanged", "non-nil edge of the callback result", p.InstrPos(cb), "returns the callback's error value itself", why)
 	}
 	// 2. reader outlives the loop
-	rd := r.Of(read.Call.Args[0])
+	rr := r
+	for i := len(handOff) - 1; i >= 0; i-- {
+		// resolve parameters of the loop function at the (single) chain of calls from Ingest
+		_ = i
+	}
+	if len(handOff) > 0 {
+		rr = NewResolver(p)
+		for _, site := range handOff {
+			rr = rr.Bind(staticCallee(site.Common()), site)
+		}
+	}
+	rd := rr.Of(read.Call.Args[0])
 	okReader := false
 	why := "the reader read from is " + trimOrg(rd.String())
 	for _, a := range rd.Alts() {
 		if a.K == "call" && (a.Name == "bufio.NewReader" || a.Name == "bufio.NewReaderSize") {
 			nc := a.V.(*ssa.Call)
-			if nc.Parent() == ing && dominatesInstr(nc, read) && !inLoop(nc) {
+			switch {
+			case nc.Parent() == ing && dominatesInstr(nc, read) && !inLoop(nc):
 				okReader = true
-			} else {
+			case nc.Parent() != ing && !inLoop(nc):
+				// created by a caller on the chain and handed to the loop function
+				onChain := false
+				for _, site := range handOff {
+					if site.Parent() == nc.Parent() && (dominatesInstr(nc, site) || nc == site.(ssa.Instruction)) && !inLoop(site) {
+						onChain = true
+					}
+				}
+				if onChain {
+					okReader = true
+				} else {
+					why = "the buffered reader is not created once before the read loop is entered"
+				}
+			default:
 				why = "the buffered reader is created inside the loop (or on some paths only): bytes it had buffered beyond the current record are discarded"
 			}
 		}
@@ -304,6 +418,24 @@ func returnsOnEdge(r *Resolver, fn *ssa.Function, b *ssa.BasicBlock, val ssa.Val
 		res := ret.Results[len(ret.Results)-1]
 		ro := r.Of(res)
 		isSame := len(ro.Alts()) == 1 && sameValue(ro, r.Of(val))
+		if !isSame {
+			// the value sits in a local variable in memory: the return loads
+			// that variable and no path from the edge to the return stores to it
+			if storedCellOf(val) != nil {
+				// the edge into b, and the block where val is stored
+				var edgeFrom, origin *ssa.BasicBlock
+				if _, _, iff := errEdge(val); iff != nil {
+					edgeFrom = iff.Block()
+				}
+				if vi, ok := val.(ssa.Instruction); ok {
+					origin = vi.Block()
+				}
+				vs := fsValuesVia(res, ret, b, edgeFrom, origin)
+				if len(vs) == 1 && vs[0] == val {
+					isSame = true
+				}
+			}
+		}
 		if same && !isSame {
 			return false, "the error returned at " + r.P.InstrPos(ret) + " is " + trimOrg(ro.String()) + ", not the value itself (it is wrapped, replaced or dropped)"
 		}
